@@ -47,6 +47,29 @@ def together_family():
     return out
 
 
+def index_family():
+    """deterministic family: db_index switched on or off on 2-5 columns of one model in one evolution (the
+    statements then concern several single-column indexes of one table; their order must not depend on how
+    the field objects happen to hash)"""
+    out = []
+    for n in (2, 3, 4, 5):
+        for extra in (False, True):
+            for on in (False, True):
+                cols = list('abcde')[:n]
+                others = [fld('z', 'CharField', max_length=10, null=True)] if extra else []
+                m0 = {'name': 'Alpha', 'table': 'vapp_alpha', 'unique_together': [], 'index_together': [], 'indexes': [],
+                      'constraints': [], 'fields': [fld('id', 'AutoField', primary_key=True)] + others +
+                      [fld(c, 'IntegerField', **({} if on else {'db_index': True})) for c in cols]}
+                m1 = dict(m0, fields=[fld('id', 'AutoField', primary_key=True)] + others +
+                          [fld(c, 'IntegerField', **({'db_index': True} if on else {})) for c in cols])
+                out.append({'spec0': {'apps': [{'id': 'vapp', 'models': [m0]}]},
+                            'spec1': {'apps': [{'id': 'vapp', 'models': [m1]}]},
+                            'muts': [{'t': 'ChangeField', 'model': 'Alpha', 'field': c, 'ftype': None, 'initial': None,
+                                      'attrs': [['db_index', 'true' if on else 'false']]} for c in cols],
+                            'rows': False, 'family': 'column-indexes'})
+    return out
+
+
 def set_order_sensitive(case):
     """a ChangeMeta(unique_together/index_together) that adds or removes at least two entries"""
     old = {}
@@ -98,8 +121,8 @@ def run(ctx):
                 'run in %d processes with different PYTHONHASHSEED, each doing `evolve --sql`, `evolve --hint`, '
                 '`evolve --execute`; non-trivial = the preview has at least one statement' % len(seeds))
     flag = ctx.variant.get('together_iteration')
-    n = 60 if quick else 600
-    cases = [{'case': c, 'seed': i} for i, c in enumerate(together_family())]
+    n = 76 if quick else 600
+    cases = [{'case': c, 'seed': i} for i, c in enumerate(together_family() + index_family())]
     tries = 0
     while len(cases) < n + 10 and tries < n * 6:
         tries += 1
